@@ -10,7 +10,7 @@ from typing import Any, Dict, List, Optional, Tuple
 from ..dofsym import KINDS
 from ..interp import (Arr, Interp as _Interp, Obj, Opaque, PyFunc, Raised,
                       SymInt, Unsupported, Bound)
-from ..model import AnalysisError, Model, src
+from ..model import staged, AnalysisError, Model, src
 from ..poly import Poly
 
 PID = "C07"
@@ -776,11 +776,9 @@ def run(model: Model, rep, tier: str) -> None:
              "kinds; name offsets follow the dofnames order")
     rep.rule("C07-R4", "get_dofs dispatch, default = boundary facets, "
              "selector pass-through / tag lookup, complement")
-    _queries(model, rep)
-    _names_to_rows(model, rep)
-    _view_methods(model, rep)
-    _dispatch(model, rep)
-    _predicates(model, rep)
+    staged(lambda: _queries(model, rep), lambda: _names_to_rows(model, rep),
+           lambda: _view_methods(model, rep), lambda: _dispatch(model, rep),
+           lambda: _predicates(model, rep))
     rep.require_min("C07-R1", 150)
     rep.require_min("C07-R2", 50)
     rep.require_min("C07-R3", 8)
